@@ -1,32 +1,201 @@
-// c28 (dev)
+// c28: signed objects detect any change to signed content.
+//
+// Oracle (the property's own statement on the real code): every signed unit ({fact, sign(s)} of ballot sign
+// facts, proposal sign facts and operations; block maps) inside random valid objects is mutated at the
+// decoded-JSON level, one field at a time (each leaf of the fact, list edits, the fact's _hint to every
+// registered hint, each field of each sign, signs/signers/nodes/times/facts taken from another valid
+// unit), re-encoded, decoded through the real encoder and validated with IsValid(networkID): the mutated
+// object must fail to decode or fail IsValid.  Plus: validation under another network id must fail; facts
+// of different kinds built from the same values must have different hashes.
+// Correspondence: (fact kind, field, detected) and (kind, new kind, detected) are compared with the
+// coverage tables extracted from the source (coq/Gen/Codecs.v) by the Coq model's `check`.
 package main
 
 import (
+	"bytes"
+	"encoding/base64"
 	"fmt"
-	"sort"
+	"strings"
 
+	"github.com/spikeekips/mitum/base"
+	"github.com/spikeekips/mitum/isaac"
+	isaacoperation "github.com/spikeekips/mitum/isaac/operation"
 	"verifharness/cmd/c27/gen"
 	"verifharness/vh"
 )
 
+type replay struct {
+	Seed     uint64 `json:"seed"`
+	Kind     string `json:"kind"`
+	Unit     string `json:"unit,omitempty"`
+	Field    string `json:"field,omitempty"`
+	Op       string `json:"op,omitempty"`
+	Original string `json:"original,omitempty"`
+	Mutated  string `json:"mutated,omitempty"`
+}
+
+// kinds whose hash inputs coincide (must equal shared_groups in coq/C28/Model.v; tied by the cases)
+var sharedGroups = [][]string{
+	{"init-ballot-fact-v0.0.1", "suffrage-confirm-ballot-fact-v0.0.1"},
+	{"accept-ballot-fact-v0.0.1", "empty-operations-accept-ballot-fact-v0.0.1", "not-processed-accept-ballot-fact-v0.0.1"},
+	{"genesis-network-policy-fact-v0.0.1", "network-policy-fact-v0.0.1"},
+	{"suffrage-disjoin-fact-v0.0.1", "suffrage-join-fact-v0.0.1"},
+}
+
+func shares(a, b string) bool {
+	for _, g := range sharedGroups {
+		ia, ib := false, false
+		for _, h := range g {
+			ia = ia || h == a
+			ib = ib || h == b
+		}
+		if ia && ib {
+			return true
+		}
+	}
+	return false
+}
+
+type harness struct {
+	o     *vh.Opts
+	w     *gen.World
+	res   *vh.Result
+	cases *vh.Cases
+	seen  map[string]bool
+}
+
+func (h *harness) addCase(kind int, a, b string, detected bool) {
+	key := fmt.Sprintf("%d|%s|%s|%v", kind, a, b, detected)
+	if h.seen[key] {
+		return
+	}
+	h.seen[key] = true
+	h.cases.Add(vh.Tuple(vh.Nat(kind), vh.Str(a), vh.Str(b), vh.Bool(detected)),
+		map[string]any{"kind": kind, "a": a, "b": b, "detected": detected})
+}
+
+// validate: decode the document as the original's type would be decoded and call IsValid(networkID).
+// returns ("decode", err) / ("invalid", err) / ("valid", nil)
+func (h *harness) validate(orig any, doc []byte, nid []byte) (string, any, error) {
+	v, err := h.w.Decode(orig, doc)
+	if err != nil {
+		return "decode", nil, err
+	}
+	if e, _ := gen.IsValid(v, nid); e != nil {
+		return "invalid", v, e
+	}
+	return "valid", v, nil
+}
+
+func (h *harness) corpus() {
+	w, res := h.w, h.res
+	// (a) kinds sharing hash inputs: same values, different kind, same hash
+	p := w.Point()
+	prev, pr := w.Hash(), w.Hash()
+	ex := w.Hashes(1, 2)
+	fi := isaac.NewINITBallotFact(p, prev, pr, ex)
+	fs := isaac.NewSuffrageConfirmBallotFact(p, prev, pr, ex)
+	res.Count("corpus-init-sc", true)
+	if fi.Hash().Equal(fs.Hash()) && fi.IsValid(nil) == nil && fs.IsValid(nil) == nil {
+		res.Fail("kind-swap-same-hash-inputs", "INITBallotFact and SuffrageConfirmBallotFact built from the same values are both valid and share the hash "+fi.Hash().String(),
+			replay{Seed: h.o.Seed, Kind: "corpus/init-vs-suffrage-confirm"})
+	}
+	tok := w.Token()
+	ad := w.Addr()
+	ht := w.Height()
+	fj := isaacoperation.NewSuffrageJoinFact(tok, ad, ht)
+	fd := isaacoperation.NewSuffrageDisjoinFact(tok, ad, ht)
+	res.Count("corpus-join-disjoin", true)
+	if fj.Hash().Equal(fd.Hash()) && fj.IsValid(nil) == nil && fd.IsValid(nil) == nil {
+		res.Fail("kind-swap-same-hash-inputs", "SuffrageJoinFact and SuffrageDisjoinFact built from the same values are both valid and share the hash "+fj.Hash().String(),
+			replay{Seed: h.o.Seed, Kind: "corpus/join-vs-disjoin"})
+	}
+	// (b) INIT-stage fact relabelled as ACCEPT-stage fact (keys renamed): must be rejected (stage is hashed and validated)
+	{
+		f0 := isaac.NewINITBallotFact(p, prev, pr, nil)
+		b, _ := w.Enc.Marshal(f0)
+		root, _ := gen.ParseJSON(b)
+		m := root.(map[string]any)
+		m2 := map[string]any{}
+		for k, v := range m {
+			switch k {
+			case "previous_block":
+				m2["proposal"] = v
+			case "proposal":
+				m2["new_block"] = v
+			case "_hint":
+				m2[k] = isaac.ACCEPTBallotFactHint.String()
+			default:
+				m2[k] = v
+			}
+		}
+		res.Count("corpus-init-as-accept", true)
+		if st, _, _ := h.validate(isaac.ACCEPTBallotFact{}, gen.RenderJSON(m2), nil); st == "valid" {
+			res.Fail("stage-separation-broken", "an INIT ballot fact relabelled as ACCEPT ballot fact is valid with the same hash",
+				replay{Seed: h.o.Seed, Kind: "corpus/init-as-accept", Original: string(b), Mutated: string(gen.RenderJSON(m2))})
+		}
+	}
+	// (c) raw concatenation: token ++ expel fact == (token ++ expel fact bytes) ++ nothing
+	{
+		f0 := isaac.NewINITBallotFact(p, prev, pr, ex[:1])
+		b, _ := w.Enc.Marshal(f0)
+		root, _ := gen.ParseJSON(b)
+		m := root.(map[string]any)
+		tokb, err := base64.StdEncoding.DecodeString(m["token"].(string))
+		if err == nil {
+			m2 := map[string]any{}
+			for k, v := range m {
+				m2[k] = v
+			}
+			m2["token"] = base64.StdEncoding.EncodeToString(append(append([]byte{}, tokb...), ex[0].Bytes()...))
+			delete(m2, "expel_facts")
+			res.Count("corpus-concat", true)
+			if st, v, _ := h.validate(f0, gen.RenderJSON(m2), nil); st == "valid" {
+				if hv, ok := v.(isaac.INITBallotFact); ok && hv.Hash().Equal(f0.Hash()) && len(hv.ExpelFacts()) == 0 {
+					res.Fail("concat-ambiguity-token-expelfacts", "INIT ballot fact with the expel fact moved into the token is valid with the same hash (two fields changed)",
+						replay{Seed: h.o.Seed, Kind: "corpus/concat-ambiguity", Original: string(b), Mutated: string(gen.RenderJSON(m2))})
+				}
+			}
+		}
+	}
+}
+
+func factKey(m gen.Mutation) (string, bool) {
+	if len(m.Rel) >= 2 {
+		if s, ok := m.Rel[0].(string); ok && s == "fact" {
+			if k, ok := m.Rel[1].(string); ok {
+				return k, true
+			}
+		}
+	}
+	return "", false
+}
+
 func main() {
 	o := vh.ParseFlags()
+	res := vh.NewResult("every signed unit (ballot/proposal sign facts, operations, block maps) inside random valid objects of every registered type, " +
+		"x every single-field mutation at the decoded-JSON level (leaf values, list edits, _hint to every registered hint, sign fields, swaps with another valid unit), " +
+		"decoded by the real encoder and validated by IsValid(networkID); plus network-id swap; non-trivial = the mutated document still decodes (validation, not parsing, has to catch it)")
 	r := vh.NewRand(o.Seed)
-	w := gen.NewWorld(r)
+	h := &harness{o: o, w: gen.NewWorld(r), res: res, seen: map[string]bool{},
+		cases: &vh.Cases{Import: "From MV Require Import C28.Model.", Type: "case", CheckFn: "check", Shard: 400}}
 	hints := gen.AllHints()
-	und := map[string]int{}
-	tot := map[string]int{}
-	total, dec := 0, 0
-	for round := 0; round < o.Pick(1, 5); round++ {
-		objs := w.All()
-		// donors by unit kind+hint
-		donors := map[string][]any{}
+	h.corpus()
+
+	rounds := o.Pick(2, 40)
+	for round := 0; round < rounds; round++ {
+		if round > 0 {
+			h.w = gen.NewWorld(r)
+		}
+		w := h.w
 		type doc struct {
 			ob   gen.Obj
 			root any
+			raw  []byte
 		}
 		var docs []doc
-		for _, ob := range objs {
+		donors := map[string][]any{}
+		for _, ob := range w.All() {
 			if !ob.Signed {
 				continue
 			}
@@ -34,59 +203,111 @@ func main() {
 			if err != nil {
 				panic(err)
 			}
+			// network id: valid under the right one, invalid under another one and under none
+			e0, _ := gen.IsValid(ob.V, w.NetworkID)
+			e1, _ := gen.IsValid(ob.V, w.OtherID)
+			e2, _ := gen.IsValid(ob.V, nil)
+			res.Count("nid|"+ob.Kind+fmt.Sprint(round), true)
+			switch {
+			case e0 != nil:
+				res.Note(fmt.Sprintf("generator produced an invalid %s: %v", ob.Kind, e0))
+				continue
+			case e1 == nil || e2 == nil:
+				res.Fail("network-id-not-bound", ob.Kind+": valid under a different / empty network id", replay{Seed: o.Seed, Kind: ob.Kind, Original: string(b)})
+			}
 			root, err := gen.ParseJSON(b)
 			if err != nil {
 				panic(err)
 			}
-			docs = append(docs, doc{ob, root})
+			docs = append(docs, doc{ob, root, b})
 			for _, u := range gen.FindUnits(root) {
 				k := u.Kind + "|" + u.Hint
-				if len(donors[k]) < 3 {
+				if len(donors[k]) < 2 {
 					donors[k] = append(donors[k], gen.Get(root, u.At))
 				}
 			}
 		}
 		for _, d := range docs {
-			// sanity: unmutated re-rendered document is valid
-			if v, err := w.Decode(d.ob.V, gen.RenderJSON(d.root)); err != nil {
-				fmt.Println("BASE-DECODE", d.ob.Kind, err)
-				continue
-			} else if e, _ := gen.IsValid(v, w.NetworkID); e != nil {
-				fmt.Println("BASE-INVALID", d.ob.Kind, e)
+			base0 := gen.RenderJSON(d.root)
+			st, v0, err := h.validate(d.ob.V, base0, w.NetworkID)
+			if st != "valid" {
+				res.Note(fmt.Sprintf("re-rendered %s does not validate (%s: %v); skipped", d.ob.Kind, st, err))
 				continue
 			}
+			ref0, _ := w.Enc.Marshal(v0)
+			ref := gen.Canonical(ref0)
 			for _, u := range gen.FindUnits(d.root) {
 				for _, m := range w.UnitMutations(d.root, u, hints, donors[u.Kind+"|"+u.Hint]) {
-					total++
-					key := fmt.Sprintf("%s %s %s %s", u.Kind, u.FHint+u.Hint[:0], m.Field(), m.Op)
-					tot[key]++
 					mb := gen.RenderJSON(m.Apply(d.root))
-					v, err := w.Decode(d.ob.V, mb)
-					if err != nil {
-						dec++
+					st, v, _ := h.validate(d.ob.V, mb, w.NetworkID)
+					detected := st != "valid"
+					if st == "valid" {
+						// a mutation the decoder normalises away (extra array member of a fixed-size array, ...)
+						// is not a change of content
+						if bb, err := w.Enc.Marshal(v); err == nil && bytes.Equal(gen.Canonical(bb), ref) {
+							res.Dist("mutation-noop")
+							continue
+						}
+					}
+					bucket := u.Kind + ":" + m.Op
+					if i := strings.Index(bucket, ":swap-other"); i >= 0 {
+						bucket = u.Kind + ":swap-other"
+					}
+					res.Dist(bucket)
+					res.Dist("outcome:" + st)
+					res.Count(fmt.Sprintf("%d|%s|%s|%s|%s", round, d.ob.Kind, u.At.String(), m.Rel.String(), m.Op)+fmt.Sprint(m.New)[:min(12, len(fmt.Sprint(m.New)))], st != "decode")
+					// correspondence cases
+					if k, ok := factKey(m); ok {
+						switch {
+						case m.Op == "hint-swap":
+							h.addCase(1, u.FHint, m.New.(string), detected)
+						case strings.HasPrefix(m.Op, "swap-other"):
+						default:
+							h.addCase(0, u.FHint, k, detected)
+						}
+					}
+					if u.Kind == "blockmap" && len(m.Rel) >= 2 && m.Rel[0] == "manifest" && !strings.HasPrefix(m.Op, "swap-other") {
+						if k, ok := m.Rel[1].(string); ok {
+							h.addCase(0, "manifest-v0.0.1", k, detected)
+						}
+					}
+					if detected {
 						continue
 					}
-					if e, _ := gen.IsValid(v, w.NetworkID); e == nil {
-						k := key
-						if m.Op == "hint-swap" {
-							k += " -> " + m.New.(string)
-						}
-						und[k]++
-						if und[k] == 1 {
-							fmt.Println("UNDETECTED", d.ob.Kind, u.At.String(), k)
-						}
+					class := "undetected-mutation"
+					switch {
+					case m.Op == "hint-swap" && shares(u.FHint, m.New.(string)):
+						class = "kind-swap-same-hash-inputs"
+					case u.FHint == isaac.SuffrageExpelFactHint.String() && m.Field() == "/fact/reason" && m.Op == "value":
+						class = "expel-reason-not-hashed"
 					}
+					desc := fmt.Sprintf("%s: unit %s at %s, field %s, %s", d.ob.Kind, u.Kind+"("+u.FHint+")", u.At.String(), m.Field(), m.Op)
+					if m.Op == "hint-swap" {
+						desc += " -> " + m.New.(string)
+					}
+					res.Fail(class, desc+": still valid", replay{Seed: o.Seed, Kind: d.ob.Kind, Unit: u.At.String(), Field: m.Rel.String(), Op: m.Op, Original: string(d.raw), Mutated: string(mb)})
 				}
 			}
 		}
 	}
-	fmt.Println("total", total, "decode-fail", dec)
-	var ks []string
-	for k := range und {
-		ks = append(ks, k)
+	if o.Replay != "" {
+		var rp replay
+		if err := vh.ReadReplay(o.Replay, &rp); err == nil && rp.Mutated != "" {
+			v, err := h.w.Enc.Decode([]byte(rp.Mutated))
+			fmt.Printf("replay %s %s %s: decode err=%v\n", rp.Kind, rp.Field, rp.Op, err)
+			if err == nil {
+				e, _ := gen.IsValid(v, nil)
+				fmt.Printf("IsValid(nil) = %v (signature checks need the run's network id)\n", e)
+			}
+		}
 	}
-	sort.Strings(ks)
-	for _, k := range ks {
-		fmt.Println(und[k], k)
+	if len(res.Samples) == 0 {
+		res.Sample(map[string]any{"registered_hints": len(hints)})
 	}
+	res.ModelCases = h.cases.Len()
+	if err := h.cases.Write(o.Out); err != nil {
+		panic(err)
+	}
+	res.Write(o.Out)
+	_ = base.NilHeight
 }
